@@ -370,3 +370,138 @@ Proof.
     destruct r as [s|]; [|discriminate]. refine (IH _ _ _ _ _ _ _ E).
     intros k0 s0 [H|H]; [injection H as <- <-; exists lv; split; [exact Ek|exact (Hw st1 s eq_refl)]|exact (Hacc k0 s0 H)].
 Qed.
+
+(* ------------------------------------------------------------------ *)
+(* both phases *)
+From PasfmtVerif Require Import Proofs.WrapTwoPhaseProofs.
+
+(* ev_lvl reads of the views only what comes from the lines *)
+Lemma ev_lvl_transfer infos1 infos2 lines e : ev_lvl (mk_lviews infos1 lines) e -> ev_lvl (mk_lviews infos2 lines) e.
+Proof.
+  destruct e as [| t d lll f |]; cbn; try exact (fun x => x). destruct d as [[[fb i0] c0]|]; [|exact (fun x => x)]. destruct fb; [|exact (fun x => x)].
+  intros (k & lv1 & Hk & Hg & Hw). destruct (mk_lviews_nth infos1 lines k lv1 Hk) as (ln & Hl & _ & G1 & _ & T1).
+  destruct (mk_lviews_level infos1 lines k lv1 Hk) as (ln1 & Hl1 & L1). rewrite Hl in Hl1. injection Hl1 as <-.
+  assert (Hlt : (k < length (mk_lviews infos2 lines))%nat) by (rewrite mk_lviews_length; apply nth_error_Some; congruence).
+  destruct (nth_error (mk_lviews infos2 lines) k) as [lv2|] eqn:E2; [|apply nth_error_None in E2; lia].
+  destruct (mk_lviews_nth infos2 lines k lv2 E2) as (ln' & Hl' & _ & G2 & _ & T2). rewrite Hl in Hl'. injection Hl' as <-.
+  destruct (mk_lviews_level infos2 lines k lv2 E2) as (ln2 & Hl2 & L2). rewrite Hl in Hl2. injection Hl2 as <-.
+  exists k, lv2. split; [exact E2|]. split; [rewrite G2, <- G1; exact Hg|]. rewrite T2, <- T1, L2, <- L1. exact Hw.
+Qed.
+
+(* a first-token break in a plan made of events with ev_lvl, at a token that starts only top-level lines of level L *)
+Lemma break_event_levels infos lines evs t ind cont L :
+  (forall e, In e evs -> is_D e = true -> ev_lvl (mk_lviews infos lines) e) ->
+  In (t, DBreak true ind cont) (plan_of_events evs) -> starts_top lines t L -> ind = L /\ cont = 0.
+Proof.
+  intros Hall Hin Hs. destruct (plan_of_events_in t _ _ Hin) as (tk & dd & lll & fs & Hev & Htk & Hdd).
+  destruct dd as [[[fb i0] c0]|]; [|discriminate]. injection Hdd as <- <- <-.
+  destruct (Hall _ Hev eq_refl) as (k & lv & Hk & Hh & Htop).
+  assert (Htk' : tk = N.of_nat t) by (rewrite <- Htk, Nnat.N2Nat.id; reflexivity). rewrite Htk' in Hh.
+  destruct (starts_top_views infos lines t L Hs k lv Hk Hh) as (Ht & HL). destruct (Htop Ht) as (Ei & Ec). split; congruence.
+Qed.
+
+Lemma last_in_decs t plan ds d : decs_for t plan = ds ++ [d] -> In (t, d) plan.
+Proof.
+  intros Hd. assert (H : In d (decs_for t plan)) by (rewrite Hd; apply in_or_app; right; left; reflexivity).
+  unfold decs_for in H. apply in_map_iff in H. destruct H as ([t' d'] & Hd' & Hfl). apply filter_In in Hfl. destruct Hfl as (Hfl & Heq).
+  cbn [fst snd] in *. apply PeanoNat.Nat.eqb_eq in Heq. subst. exact Hfl.
+Qed.
+
+Lemma decs_for_app t p q : decs_for t (p ++ q) = decs_for t p ++ decs_for t q.
+Proof. unfold decs_for. rewrite filter_app, map_app. reflexivity. Qed.
+
+Lemma apply_last_break ds ind cont f0 : let f := fold_left apply_decision (ds ++ [DBreak true ind cont]) f0 in
+  f_ind f = ind /\ f_cont f = cont /\ 1 <= f_nl f <= 2.
+Proof. cbv zeta. rewrite fold_left_app. cbn [fold_left apply_decision f_nl f_ind f_cont]. split; [reflexivity|]. split; [reflexivity|]. apply clamp12_range. Qed.
+
+Lemma fsim_nth : forall l l', fsim l l' -> forall t tok f, nth_error l t = Some (tok, f) -> exists tok', nth_error l' t = Some (tok', f).
+Proof.
+  induction 1 as [|[t1 f1] [t2 f2] r1 r2 Hxy Hr IH]; intros t tok f E; [destruct t; discriminate|]. cbn [snd] in Hxy. subst f2.
+  destruct t as [|t]; cbn [nth_error] in *; [injection E as <- <-; exists t2; reflexivity|exact (IH t tok f E)].
+Qed.
+
+Lemma respace_nth : forall l sp t tok f, length sp = length l -> nth_error (respace sp l) t = Some (tok, f) ->
+  exists f', nth_error l t = Some (tok, f') /\ f_ind f = f_ind f' /\ f_cont f = f_cont f' /\ f_nl f = f_nl f' /\ (0 < f_nl f' -> f_sp f = 0).
+Proof.
+  induction l as [|[tk g] r IH]; intros sp t tok f Hlen E; [destruct sp; cbn [respace] in E; destruct t; discriminate|]. destruct sp as [|s ss]; [discriminate|]. cbn [respace] in E.
+  destruct t as [|t]; cbn [nth_error] in *.
+  - injection E as <- <-. exists g. cbn [f_ind f_cont f_nl f_sp]. repeat split. intros Hp. apply N.ltb_lt in Hp. rewrite Hp. reflexivity.
+  - apply (IH ss t tok f); [cbn [length] in Hlen; lia|exact E].
+Qed.
+
+Definition olf_plan1 (W : wsettings) (lines : list lline) (l : list ftoken) : list (nat * decision) :=
+  plan_of_events (rev (ss_log (wrap_phase1 W (map tokinfo_of l) lines))).
+Definition olf_plan2 (rs : rsettings) (W : wsettings) (lines : list lline) (l : list ftoken) : list (nat * decision) :=
+  match olf_reflow rs W lines l with
+  | [] => []
+  | reflow =>
+      let st2 := wrap_phase2 W (olf_infos2 rs W lines l) lines reflow (st_after1 W lines l) in
+      plan_of_events (rev (firstn (length (ss_log st2) - length (ss_log (st_after1 W lines l))) (ss_log st2)))
+  end.
+
+Lemma apply_plan_length p : forall l, length (apply_plan p l) = length l.
+Proof.
+  assert (Hu : forall g l i, length (upd_ftok i g l) = length l).
+  { induction l as [|[tk f] r IH]; intros i; [destruct i; reflexivity|]. destruct i; cbn [upd_ftok length]; [reflexivity|rewrite IH; reflexivity]. }
+  unfold apply_plan. induction p as [|pd r IH]; intros l; [reflexivity|]. cbn [fold_left]. rewrite IH. destruct pd. apply Hu.
+Qed.
+
+Lemma fsim_length l l' : fsim l l' -> length l = length l'.
+Proof. induction 1; cbn [length]; congruence. Qed.
+
+(* the state after phase 1, seen with the token table of phase 2 *)
+Lemma st_after1_lvl W lines l infos2 : st_lvl (mk_lviews infos2 lines) (has_parent lines) (st_after1 W lines l).
+Proof.
+  pose proof (wrap_phase_levels W (map tokinfo_of l) lines lv_top sst_init) as H.
+  destruct H as (Hc & Hl); [split; [apply cache_ok_init|constructor]|].
+  split; [exact Hc|]. unfold st_after1, Dlog, sst_log. cbn [ss_log filter is_D]. fold (Dlog (wrap_phase1 W (map tokinfo_of l) lines)).
+  unfold wrap_phase1. revert Hl. apply Forall_impl. intros e. apply ev_lvl_transfer.
+Qed.
+
+Theorem olf_line_starts rs W fms lines l t tok f ds ind cont L :
+  nth_error (fst (fst (olf_model rs W fms lines l))) t = Some (tok, f) ->
+  (* the last decision about token t, over phase 1 and (with format_multiline_strings) the reflow of phase 2 *)
+  decs_for t (olf_plan1 W lines l ++ (if fms then olf_plan2 rs W lines l else [])) = ds ++ [DBreak true ind cont] ->
+  (* every line that starts with token t is a top-level line of level L, not the Eof line *)
+  starts_top lines t L ->
+  f_ind f = L /\ f_cont f = 0 /\ f_sp f = 0 /\ 1 <= f_nl f <= 2.
+Proof.
+  intros Hn Hd Hs. destruct fms.
+  2:{ rewrite app_nil_r in Hd. exact (olf_phase1_line_starts_lines rs W lines l t tok f ds ind cont L Hn Hd Hs). }
+  (* the token after phase 1 *)
+  assert (HA : forall d1 i1 c1 tokA fA, decs_for t (olf_plan1 W lines l) = d1 ++ [DBreak true i1 c1] -> nth_error (olf_a W lines l) t = Some (tokA, fA) ->
+               f_ind fA = L /\ f_cont fA = 0 /\ f_sp fA = 0 /\ 1 <= f_nl fA <= 2).
+  { intros d1 i1 c1 tokA fA Hd1 HnA. apply (olf_phase1_line_starts_lines rs W lines l t tokA fA d1 i1 c1 L); [|exact Hd1|exact Hs].
+    unfold olf_model. cbn [fst]. exact HnA. }
+  (* a break of phase 2 *)
+  assert (H2 : forall i2 c2, In (t, DBreak true i2 c2) (olf_plan2 rs W lines l) -> i2 = L /\ c2 = 0).
+  { intros i2 c2 Hin. unfold olf_plan2 in Hin. destruct (olf_reflow rs W lines l) as [|r0 rr] eqn:Er; [destruct Hin|]. cbv zeta in Hin.
+    set (st2 := wrap_phase2 W (olf_infos2 rs W lines l) lines (r0 :: rr) (st_after1 W lines l)) in *.
+    pose proof (wrap_phase_levels W (olf_infos2 rs W lines l) lines (fun lv => existsb (Nat.eqb (lv_idx lv)) (r0 :: rr)) (st_after1 W lines l)
+                  (st_after1_lvl W lines l _)) as (_ & Hl2). fold (wrap_phase2 W (olf_infos2 rs W lines l) lines (r0 :: rr) (st_after1 W lines l)) in Hl2. fold st2 in Hl2.
+    apply (break_event_levels (olf_infos2 rs W lines l) lines _ t i2 c2 L) in Hin; [exact Hin| |exact Hs].
+    intros e He HD. rewrite Forall_forall in Hl2. apply Hl2. unfold Dlog. apply filter_In. split; [|exact HD].
+    apply in_rev in He. rewrite <- (firstn_skipn (length (ss_log st2) - length (ss_log (st_after1 W lines l))) (ss_log st2)). apply in_or_app. left. exact He. }
+  rewrite decs_for_app in Hd. rewrite olf_model_true_unfold in Hn. unfold olf_plan2 in Hd, H2.
+  pose proof (ml_lines_fsim rs lines lines 0 (olf_a W lines l) []) as Hb. fold (olf_ml rs W lines l) in Hb.
+  destruct (olf_reflow rs W lines l) as [|r0 rr] eqn:Er.
+  - cbn [fst] in Hn. cbn [decs_for] in Hd. unfold decs_for at 2 in Hd. cbn [filter map] in Hd. rewrite app_nil_r in Hd.
+    destruct (fsim_nth _ _ Hb t tok f Hn) as (tokA & HnA). exact (HA ds ind cont tokA f Hd HnA).
+  - cbv zeta in Hn, Hd, H2. cbn [fst] in Hn.
+    set (plan2 := plan_of_events (rev (firstn (length (ss_log (wrap_phase2 W (olf_infos2 rs W lines l) lines (r0 :: rr) (st_after1 W lines l))) - length (ss_log (st_after1 W lines l)))
+                                         (ss_log (wrap_phase2 W (olf_infos2 rs W lines l) lines (r0 :: rr) (st_after1 W lines l)))))) in *.
+    assert (Hlen : length (map (fun p : ftoken => f_sp (snd p)) l) = length (apply_plan plan2 (fst (olf_ml rs W lines l)))).
+    { rewrite apply_plan_length, map_length, (fsim_length _ _ Hb). unfold olf_a, zero_line_starts. rewrite map_length, apply_plan_length. reflexivity. }
+    destruct (respace_nth _ _ t tok f Hlen Hn) as (f' & Hn' & Ei & Ec & Enl & Esp).
+    rewrite apply_plan_nth in Hn'. destruct (nth_error (fst (olf_ml rs W lines l)) t) as [[tokB fB]|] eqn:EB; [|discriminate].
+    cbn [option_map fst snd] in Hn'. injection Hn' as _ Hf'.
+    destruct (fsim_nth _ _ Hb t tokB fB EB) as (tokA & HnA).
+    destruct (decs_for t plan2) as [|d2 r2] eqn:E2 using rev_ind.
+    + rewrite app_nil_r in Hd. cbn [fold_left] in Hf'. subst f'. destruct (HA ds ind cont tokA fB Hd HnA) as (A1 & A2 & A3 & A4).
+      split; [congruence|]. split; [congruence|]. split; [apply Esp; lia|lia].
+    + clear IHr2. rewrite app_assoc in Hd. apply app_inj_tail in Hd. destruct Hd as (_ & ->).
+      destruct (H2 ind cont (last_in_decs t plan2 r2 _ E2)) as (-> & ->).
+      pose proof (apply_last_break r2 L 0 fB) as (B1 & B2 & B3). cbv zeta in B1, B2, B3. rewrite Hf' in B1, B2, B3.
+      split; [congruence|]. split; [congruence|]. split; [apply Esp; lia|lia].
+Qed.
+Print Assumptions olf_line_starts.
